@@ -196,6 +196,11 @@ FIFTH_PASS = {
  "C13": " Fifth pass: LocalFile.comments recognises every line-comment opener the scanner skips (file directives live there).",
  "C14": " Fifth pass: an Executor built with NopRevisionReadWriter is used through Replay only; the PostgreSQL restore closures apply a computed diff only through withCascade.",
  "C15": " Fifth pass: no Go-quoted run-time string as HCL expression text (found D45, D48); a store into RefColumns/Columns of one foreign key reads the same-named field of the other; a postgres function that recognises an array type by name keeps an ArrayType.",
+ "C16": " Fifth pass: the SchemaQualifier store is reached on every path that did not establish URL.Schema == \"\"; CheckChangesScope counts the schemas of tables referenced by foreign keys (found D49).",
+ "C17": " Fifth pass: the reverse of DROP TABLE is computed from the dropped table itself in every dialect; detachReferences keeps a table change over a copy without the split-off foreign keys.",
+ "C18": " Fifth pass: statement-level nolint rules are stored from values of the same iteration only; destructive.New stores its default on every path to a successful return.",
+ "C19": " Fifth pass: the exported state-reader configuration carries every option that has a counterpart; wherever diff options are at hand every RealmDiff/SchemaDiff/TableDiff call forwards them.",
+ "C20": " Fifth pass: plain values collected from a map are sorted by a comparator over the values themselves; a preferred/fallback search loop does not stop at the fallback.",
 }
 for _k, _v in FIFTH_PASS.items():
     CLAIMED[_k]["text"] += _v
